@@ -515,55 +515,147 @@ def _rules_filter_admits(init: FunctionInfo, name: str) -> bool | None:
     return res
 
 
-def _dispatch_loop_ok(fi: FunctionInfo) -> str | None:
-    """The function holds one loop over ``<x>.children`` (in order, unsliced) whose body dispatches
-    ``self.rules[f"render_{c.type}"](c)`` on the loop variable or warns. Returns a complaint or None."""
-    loops = []
-    for n in fi.local_nodes():
-        if isinstance(n, ast.For) and isinstance(n.target, ast.Name):
-            calls = [
-                c
-                for c in ast.walk(n)
-                if isinstance(c, ast.Call) and isinstance(c.func, ast.Subscript) and unparse(c.func.value) == "self.rules"
-            ]
-            if calls:
-                loops.append((n, calls))
-    if len(loops) != 1:
-        raise Unsupported(f"{fi.qualname}: expected one dispatch loop over self.rules, found {len(loops)}")
-    loop, calls = loops[0]
-    var = loop.target.id
-    it = loop.iter
-    if isinstance(it, ast.BoolOp) and isinstance(it.op, ast.Or) and len(it.values) == 2 and isinstance(it.values[1], (ast.List, ast.Tuple)) and not it.values[1].elts:
-        it = it.values[0]
-    if not (isinstance(it, ast.Attribute) and it.attr == "children"):
-        return f"the dispatch loop iterates `{short(loop.iter, 50)}`, not the children of the node as they are: order or completeness of the rendered children is no longer that of the token tree"
+def _is_type_key(key: ast.expr, var: str, fi: FunctionInfo, depth: int = 0) -> bool:
+    """``f"render_{var.type}"`` / ``"render_" + var.type`` / a local bound once to one of these."""
+    if isinstance(key, ast.JoinedStr):
+        return len(key.values) == 2 and isinstance(key.values[0], ast.Constant) and key.values[0].value == "render_" and isinstance(key.values[1], ast.FormattedValue) and unparse(key.values[1].value) == f"{var}.type"
+    if isinstance(key, ast.BinOp) and isinstance(key.op, ast.Add):
+        return isinstance(key.left, ast.Constant) and key.left.value == "render_" and unparse(key.right) == f"{var}.type"
+    if isinstance(key, ast.Name) and depth < 2:
+        defs = _all_defs(fi, key.id)
+        return len(defs) == 1 and _is_type_key(defs[0], var, fi, depth + 1)
+    return False
+
+
+def _rules_lookup(e: ast.expr) -> ast.expr | None:
+    """The key of ``self.rules[K]`` / ``self.rules.get(K[, d])``; None for anything else."""
+    if isinstance(e, ast.Subscript) and unparse(e.value) == "self.rules":
+        return e.slice
+    if isinstance(e, ast.Call) and isinstance(e.func, ast.Attribute) and e.func.attr == "get" and unparse(e.func.value) == "self.rules" and e.args:
+        return e.args[0]
+    return None
+
+
+def _dispatch_calls(fi: FunctionInfo, root: ast.AST) -> list[tuple[ast.Call, ast.expr]]:
+    """(call, key) for every call of a handler looked up in self.rules inside ``root``:
+    ``self.rules[K](x)``, or ``h(x)`` with ``h`` bound once to ``self.rules[K]`` / ``self.rules.get(K)``."""
+    out = []
+    for c in ast.walk(root):
+        if not isinstance(c, ast.Call):
+            continue
+        key = _rules_lookup(c.func)
+        if key is None and isinstance(c.func, ast.Name):
+            defs = _all_defs(fi, c.func.id)
+            if len(defs) == 1:
+                key = _rules_lookup(defs[0])
+        if key is not None:
+            out.append((c, key))
+    return out
+
+
+def _dispatch_events(corpus: Corpus, fi: FunctionInfo, var: str, start, stop, depth: int = 0) -> tuple[set[int], str | None]:
+    """Counts, over all normal paths start -> stop/EXIT, of 'the node held by ``var`` is handed to the handler
+    selected by its own type, or a warning is issued' (helper methods receiving ``var`` are followed)."""
     cfg = get_cfg(fi)
+    root = start[1] if isinstance(start, tuple) else fi.node
+    calls = _dispatch_calls(fi, root)
+    complaint = None
+    for c, key in calls:
+        if not _is_type_key(key, var, fi):
+            raise Unsupported(f"{fi.qualname}: dispatch key `{short(key, 50)}` not understood")
+        if not (len(c.args) == 1 and not c.keywords and isinstance(c.args[0], ast.Name) and c.args[0].id == var):
+            complaint = f"the handler selected for `{var}` is called with `{short(c, 50)}`: another node than the one dispatched on"
+    helper_w: dict[int, int] = {}
+    for c in ast.walk(root):
+        if isinstance(c, ast.Call) and _is_self_call(c) and c.func.attr not in ("create_warning", "render_children") and any(isinstance(a, ast.Name) and a.id == var for a in list(c.args) + [k.value for k in c.keywords]):
+            m = corpus.lookup_method(fi.cls, c.func.attr) if fi.cls is not None else None
+            if m is None or depth >= 2 or not any(_dispatch_calls(m, m.node)):
+                continue
+            ps = m.params
+            pname = None
+            for i, a in enumerate(c.args):
+                if isinstance(a, ast.Name) and a.id == var and i + 1 < len(ps):
+                    pname = ps[i + 1]
+            for kw in c.keywords:
+                if isinstance(kw.value, ast.Name) and kw.value.id == var:
+                    pname = kw.arg
+            if pname is None:
+                raise Unsupported(f"{fi.qualname}: cannot map `{var}` to a parameter of {m.qualname}")
+            got, comp = _dispatch_events(corpus, m, pname, "ENTRY", None, depth + 1)
+            complaint = complaint or comp
+            if got == {1}:
+                helper_w[id(c)] = 1
+            elif got == {0}:
+                helper_w[id(c)] = 0
+            else:
+                return got, complaint or f"{m.qualname} renders (or reports) its node {sorted(got)} times depending on the path"
+    helper_calls = [c for c in ast.walk(root) if id(c) in helper_w]
 
     def weight(n):
         if not isinstance(n, ast.stmt):
             return 0
         w = 0
-        for c in calls:
+        for c, _key in calls:
             if cfg.stmt_of(c) is n:
                 w += 1
-        if isinstance(n, ast.Expr) and isinstance(n.value, ast.Call) and _is_self_call(n.value, "create_warning"):
-            w += 1
+        for c in helper_calls:
+            if cfg.stmt_of(c) is n:
+                w += helper_w[id(c)]
+        for root_e in _header_exprs(n):
+            for c in _walk_expr(root_e):
+                if isinstance(c, ast.Call) and _is_self_call(c, "create_warning"):
+                    w += 1
         return w
 
-    res = _path_counts(cfg, ("T", loop), weight, lambda n: n is loop)
-    got = set()
+    res = _path_counts(cfg, start, weight, (lambda n: n is stop) if stop is not None else (lambda n: False))
+    got: set[int] = set()
     for k, v in res.items():
-        if k is loop:
+        if stop is None or k is stop:
             got |= v
+    return got, complaint
+
+
+def _dispatch_loop_ok(corpus: Corpus, fi: FunctionInfo) -> str | None:
+    """The function holds one loop over ``<x>.children`` (in order, unsliced) whose body hands the loop variable
+    exactly once to the handler selected by its type (directly or through a helper method) or warns.
+    Returns a complaint or None."""
+    loops = []
+    for n in fi.local_nodes():
+        if isinstance(n, ast.For) and isinstance(n.target, ast.Name):
+            direct = bool(_dispatch_calls(fi, n))
+            via = False
+            for c in ast.walk(n):
+                if isinstance(c, ast.Call) and _is_self_call(c) and fi.cls is not None and any(isinstance(a, ast.Name) and a.id == n.target.id for a in list(c.args) + [k.value for k in c.keywords]):
+                    m = corpus.lookup_method(fi.cls, c.func.attr)
+                    if m is not None and not m.is_lambda:
+                        if _dispatch_calls(m, m.node):
+                            via = True
+                        else:  # second level
+                            for c2 in m.local_nodes():
+                                if isinstance(c2, ast.Call) and _is_self_call(c2):
+                                    m2 = corpus.lookup_method(fi.cls, c2.func.attr)
+                                    if m2 is not None and not m2.is_lambda and m2.fq != fi.fq and _dispatch_calls(m2, m2.node):
+                                        via = True
+            if direct or via:
+                loops.append(n)
+    if len(loops) != 1:
+        raise Unsupported(f"{fi.qualname}: expected one dispatch loop over self.rules, found {len(loops)}")
+    loop = loops[0]
+    var = loop.target.id
+    it = loop.iter
+    if isinstance(it, ast.Name):
+        defs = _all_defs(fi, it.id)
+        if len(defs) == 1:
+            it = defs[0]
+    if isinstance(it, ast.BoolOp) and isinstance(it.op, ast.Or) and len(it.values) == 2 and isinstance(it.values[1], (ast.List, ast.Tuple)) and not it.values[1].elts:
+        it = it.values[0]
+    if not (isinstance(it, ast.Attribute) and it.attr == "children"):
+        return f"the dispatch loop iterates `{short(loop.iter, 50)}`, not the children of the node as they are: order or completeness of the rendered children is no longer that of the token tree"
+    got, complaint = _dispatch_events(corpus, fi, var, ("T", loop), loop)
+    if complaint:
+        return complaint
     if got != {1}:
         return f"some path through the dispatch loop body renders (or reports) a child {sorted(got)} times instead of once"
-    for c in calls:
-        key = c.func.slice
-        ok_key = isinstance(key, ast.JoinedStr) and len(key.values) == 2 and isinstance(key.values[0], ast.Constant) and key.values[0].value == "render_" and isinstance(key.values[1], ast.FormattedValue) and unparse(key.values[1].value) == f"{var}.type"
-        if not ok_key:
-            raise Unsupported(f"{fi.qualname}: dispatch key `{short(key, 50)}` not understood")
-        if not (len(c.args) == 1 and isinstance(c.args[0], ast.Name) and c.args[0].id == var):
-            return f"the handler selected for `{var}` is called with `{short(c, 50)}`: another node than the one dispatched on"
     return None
 
 
@@ -607,7 +699,7 @@ def r1_handler_exhaustiveness(corpus: Corpus, rep: Report, tier: str):
     for q in ("DocutilsRenderer._render_tokens", "DocutilsRenderer.render_children"):
         f = corpus.mod(BASE).func(q)
         rep.saw_function(f.fq)
-        bad = _dispatch_loop_ok(f)
+        bad = _dispatch_loop_ok(corpus, f)
         k = f"{f.fq}|dispatch loop"
         if bad:
             rep.violation("C02.R1", k, f.site(), bad)
